@@ -83,6 +83,7 @@ pub fn loop_scenario(
         max_execs: 0,
         shards: 1,
         nontrivial: true,
+        unbounded: false,
     }
 }
 
@@ -406,5 +407,6 @@ pub fn select_scenario(
         max_execs: 0,
         shards: 1,
         nontrivial: true,
+        unbounded: false,
     }
 }
